@@ -741,7 +741,34 @@ fn run_wakers(sink: &mut Sink, asyncf: bool) {
 // ---------------------------------------------------------------------------------------------------------
 // handles of two different observables assigned to one another (`Clone::clone_from`, plain assignment): the counts
 // of both observables stay exact (C19). Two observables are outside the one-observable model: oracles only.
+/// counts while another thread is parked inside `subscribe()` behind a write guard: a call that has not returned has
+/// created no subscriber yet (C19); oracle only
+fn run_parked_subscribe(sink: &mut Sink) {
+    for round in 0..3 {
+        sink.case(&format!("XCP:{round}"));
+        let o: SharedObservable<T> = SharedObservable::new(T(1));
+        let _s0 = o.subscribe();
+        let g = o.write();
+        let o2 = o.clone();
+        let (tx, rx) = std::sync::mpsc::channel();
+        let h = std::thread::spawn(move || { tx.send(()).unwrap(); let s = o2.subscribe(); (s, o2) });
+        rx.recv().unwrap();
+        std::thread::sleep(std::time::Duration::from_millis(15 + 10 * round as u64));
+        // the other thread is (almost certainly) blocked inside subscribe(); whether or not it is, it owns no subscriber yet
+        let got = (o.observable_count(), o.subscriber_count(), o.strong_count());
+        if got != (2, 1, 3) { sink.oracle_fail("C19", &format!("while a thread is parked in subscribe() behind a write guard the counts (observable, subscriber, strong) are {got:?}; live handles: 2 clones, 1 subscriber")); }
+        drop(g);
+        let (s1, o2) = h.join().unwrap();
+        let got = (o.observable_count(), o.subscriber_count(), o.strong_count());
+        if got != (2, 2, 4) { sink.oracle_fail("C19", &format!("after subscribe() returned the counts are {got:?}; live handles: 2 clones, 2 subscribers")); }
+        drop(s1); drop(o2);
+        sink.line(&format!("xcf parked {round}"), "ok");
+        sink.nontrivial();
+    }
+}
+
 fn run_cross(sink: &mut Sink, asyncf: bool) {
+    if !asyncf { run_parked_subscribe(sink); }
     let per_sub = if asyncf { 2 } else { 1 }; // async subscribers hold two references (known finding D8)
     macro_rules! scen { ($new:expr, $flav:ty, $sub:expr, $tag:expr) => {{
         for variant in 0..8 {
